@@ -2,7 +2,7 @@
 
 package main
 
-// Compiled only against a repository that carries fixes/hook-c13-guard-probes.diff
+// Compiled only against a repository that carries fixes/hook-c13-guard-probes.addonly.diff
 // (run/props/c13_build.py tries this tag first and falls back to the build without it).
 
 import (
